@@ -3,8 +3,8 @@
 demo passes on the clean tree, fails with the patch, existing test suite passes with the patch."""
 import json, os, subprocess, sys, shutil, glob
 from concurrent.futures import ThreadPoolExecutor
-SRC = "/root/seeds_in"
-OUT = "/root/seeds_in/confirm.json"
+SRC = sys.argv[1] if len(sys.argv) > 1 else "/root/seeds_in"
+OUT = SRC + "/confirm.json"
 
 def sh(cmd, cwd, timeout, env=None):
     try:
@@ -15,7 +15,7 @@ def sh(cmd, cwd, timeout, env=None):
 
 def one(job):
     sid, d = job
-    wt = f"/tmp/confirm_{sid.replace('/', '_')}"
+    wt = f"/tmp/confirm{abs(hash(SRC))%1000}_{sid.replace('/', '_')}"
     subprocess.run(["git", "-C", "/repo", "worktree", "add", "-q", "--detach", wt, "HEAD"], check=True)
     res = {"seed": sid}
     try:
